@@ -313,6 +313,114 @@ def strip_const(args):
     return None
 
 
+def parser_cursor(ctx):
+    """The third-party did_url_parser (the version identity_did is locked to, MIR dumped from the cargo registry source): after
+    parse_method_id succeeds the cursor - which becomes the *end* index of the method-specific id - lies inside the input.
+    Kernel: Input {data = ":" + up to 3 arbitrary printable ASCII bytes, next = 0}, everything inlined, loop unrolled."""
+    import panicmodels
+    from execu import State
+    from replay import run_replay
+    prog, info = load(['did_url_parser'])
+    ctx.extra['mir_parser'] = info
+    import models
+
+    def m_from_utf8(ex, st, fr, name, args, dty):
+        # the kernel's inputs are printable ASCII, which is always valid UTF-8
+        return [(st, models.mk('Result', 'Ok', args[0]), 'ok', '')]
+
+    def m_from_str_radix(ex, st, fr, name, args, dty):
+        """u8::from_str_radix(s, 16) on a two-byte string: Ok(value) iff "hh" or "+h" (unsigned: a leading '+' is accepted, '-' is not)"""
+        b = models.slice_of(ex, st, args[0])
+        if b is None or not isinstance(args[1], VInt) or ex.concrete(args[1].e) != 16 or ex.concrete(b.len) != 2:
+            return None
+        c0, c1 = z3.Select(b.arr, b.off), z3.Select(b.arr, b.off + 1)
+
+        def hx(c):
+            return z3.Or(z3.And(z3.UGE(c, 48), z3.ULE(c, 57)), z3.And(z3.UGE(c, 65), z3.ULE(c, 70)), z3.And(z3.UGE(c, 97), z3.ULE(c, 102)))
+
+        def val(c):
+            return z3.If(z3.ULE(c, 57), c - 48, z3.If(z3.ULE(c, 70), c - 55, c - 87))
+        okc = z3.Or(z3.And(hx(c0), hx(c1)), z3.And(c0 == 43, hx(c1)))
+        out = []
+        if ex.feasible(st.pc + [okc]):
+            s2 = st.fork()
+            s2.pc.append(okc)
+            out.append((s2, models.mk('Result', 'Ok', VInt(z3.If(c0 == 43, val(c1), val(c0) * 16 + val(c1)), 8)), 'ok', ''))
+        if ex.feasible(st.pc + [z3.Not(okc)]):
+            s2 = st.fork()
+            s2.pc.append(z3.Not(okc))
+            out.append((s2, models.mk('Result', 'Err', VSym(('err', 'ParseIntError'), 'ParseIntError')), 'ok', ''))
+        return out
+    KERNEL_MODELS = [(re.compile(r'(^|::)from_utf8$'), m_from_utf8), (re.compile(r'<impl u8>::from_str_radix$'), m_from_str_radix)]
+    ctx.stubs.append('core::str::from_utf8 = Ok(input) on the kernel\'s printable-ASCII inputs; u8::from_str_radix(_, 16) on two bytes = its documented grammar ("hh" | "+h")')
+    A = Auditor(ctx, prog)
+    f = prog.one(r'core::<impl at [^>]*>::parse_method_id$')
+    fk = ctx.known('did-url-parser-escape-at-end-overruns')
+    for N in (0, 1, 2, 3):
+        st = State()
+        arr = z3.Array('data', z3.BitVecSort(64), z3.BitVecSort(8))
+        st.mem['data'] = VBytes(arr, z3.BitVecVal(0, 64), z3.BitVecVal(N + 1, 64))
+        st.pc.append(z3.Select(arr, z3.BitVecVal(0, 64)) == ord(':'))
+        tail = [z3.Select(arr, z3.BitVecVal(1 + i, 64)) for i in range(N)]
+        for b in tail:
+            st.pc.append(z3.And(z3.UGT(b, 32), z3.ULT(b, 127)))
+        st.mem['input'] = VAgg('Input', None, [VRef('data'), VInt(z3.BitVecVal(0, 64), 64)])
+        st.mem['core'] = VAgg('Core', None, [VInt(0, 32), VInt(0, 32), VInt(0, 32), VAgg('Option', 'None', []), VAgg('Option', 'None', [])])
+        paths, ex = A.paths(f, args=[VRef('core'), VRef('input')], state=st, inline=r'.', unwind=N + 3, allow_bound=False, max_depth=10,
+                            extra_models=KERNEL_MODELS + panicmodels.PANIC_MODELS)
+
+        def hexd(b):
+            return z3.Or(z3.And(z3.UGE(b, 48), z3.ULE(b, 57)), z3.And(z3.UGE(b, 65), z3.ULE(b, 70)), z3.And(z3.UGE(b, 97), z3.ULE(b, 102)))
+        region = z3.And(tail[N - 3] == 37, z3.Or(hexd(tail[N - 2]), tail[N - 2] == 43), hexd(tail[N - 1])) if N >= 3 else z3.BoolVal(False)
+        name = 'did_url_parser::parse_method_id/cursor-stays-inside-the-input[len %d]' % N
+        bad_out, bad_in = None, None
+        for p in paths:
+            if p.kind == 'panic':
+                bad_out = bad_out or (p, 'panic: ' + p.msg)
+                continue
+            if not p.is_ok():
+                continue
+            inp = p.st.mem.get('input')
+            nx = inp.fields[1] if isinstance(inp, VAgg) else None
+            if not isinstance(nx, VInt):
+                raise Refuse('cursor is not an integer expression after parse_method_id')
+            over = z3.UGT(nx.e, z3.BitVecVal(N + 1, 64))
+            if p.consistent(z3.And(over, z3.Not(region))):
+                bad_out = bad_out or (p, 'cursor past the end of the input', z3.And(over, z3.Not(region)))
+            elif p.consistent(over):
+                bad_in = bad_in or (p, 'cursor past the end of the input (escape at the very end)', over)
+        funcs = [short(f.name), 'Input::peek', 'Input::next', 'Input::take', 'Core::parse_pct_enc_char']
+        bounds = 'method-specific ids of %d printable ASCII bytes' % N
+        if not bad_out and not bad_in:
+            ctx.add(Ob(name, 'M', HELD, queries=len(paths), functions=funcs, bounds=bounds, sample='%d paths, cursor <= len on every accepting path' % len(paths)))
+            continue
+        for which, bad in (('new', bad_out), ('known', bad_in)):
+            if not bad:
+                continue
+            p, what = bad[0], bad[1]
+            cond = bad[2] if len(bad) > 2 else z3.BoolVal(True)
+            sol = z3.Solver()
+            sol.add(*p.st.pc)
+            sol.add(cond)
+            if sol.check() != z3.sat:
+                ctx.add(Ob(name, 'M', INCONCLUSIVE, detail='violating path not confirmed feasible'))
+                continue
+            mdl = sol.model()
+            text = 'did:a:' + ''.join(chr(mdl.eval(b, model_completion=True).as_long()) for b in tail)
+            rep = {'scenario': 'did_cursor', 'cex': {'input': text}}
+            res = run_replay(rep)
+            detail = '%s: input %r; native: %s' % (what, text, res.get('detail', '')[:200])
+            if not res.get('reproduced'):
+                ctx.add(Ob(name, 'M', INCONCLUSIVE, detail='candidate did not reproduce natively: ' + detail, functions=funcs))
+            elif which == 'known' and fk is not None:
+                ctx.add(Ob(name + ' (escape at the end)', 'M', KNOWN, detail=detail, finding=fk, functions=funcs, cex={'input': text}))
+            else:
+                ctx.add(Ob(name, 'M', VIOLATED, detail=detail, functions=funcs, cex={'input': text}, replay=rep))
+        if bad_in and not bad_out:
+            ctx.add(Ob(name + ' (outside the recorded region)', 'M', HELD, queries=len(paths), functions=funcs, bounds=bounds,
+                       sample='cursor <= len on every accepting path whose input does not end in a complete escape'))
+
+
 def kani_part(ctx):
     import kanirun
     fn = ['CoreDID::valid_method_id', 'CoreDID::valid_method_name', 'did::is_char_method_id', 'did::is_char_method_name']
@@ -331,9 +439,10 @@ def kani_part(ctx):
 def main(ctx):
     prog, info = load(CRATES)
     ctx.extra['mir'] = info
-    ctx.outside += ['the third-party did_url_parser as such (multi-position adversarial strings)', 'did:jwk (JSON)',
+    ctx.outside += ['the third-party did_url_parser beyond the method-id cursor kernel (ids <= 3 bytes) - multi-position adversarial strings, path/query/fragment phases', 'did:jwk (JSON)',
                     'non-ASCII input beyond the character-class kernels']
     guarded(ctx, 'character classes', 'M', lambda: kernels(ctx, prog))
     guarded(ctx, 'constructor / setter audit', 'M', lambda: audits(ctx, prog))
+    guarded(ctx, 'third-party parser cursor', 'M', lambda: parser_cursor(ctx))
     if os.environ.get('VERIF_SKIP_K') != '1':
         guarded(ctx, 'local validators', 'K', lambda: kani_part(ctx))
